@@ -22,6 +22,9 @@ pub struct Info {
     /// (lo, hi, type as printed) of every identifier occurrence that carries a type
     pub idents: Vec<(u32, u32, String, &'static str)>,
     pub regions: Vec<Region>,
+    /// field names of RENAMING record-pattern fields (`{ field = pat }`) with the region in which
+    /// the pattern's binders are in scope: the field name itself is NOT bound there
+    pub renamed_fields: Vec<Region>,
     /// positions where field names (not only scope names) may be suggested
     pub field_ctx: Vec<(u32, u32)>,
     /// zone around an empty tuple pattern `()` (its parent construct)
@@ -101,6 +104,39 @@ impl<'s> Walker<'s> {
     }
 
     /// value binders of a pattern (declared names)
+    /// field names of renaming fields `{ name = pat }` in `p` (they bind nothing themselves)
+    pub fn renamed(&self, p: &SpannedPattern<'_, Symbol>, out: &mut Vec<String>) {
+        match &p.value {
+            Pattern::As(_, q) => self.renamed(q, out),
+            Pattern::Constructor(_, args) => args.iter().for_each(|a| self.renamed(a, out)),
+            Pattern::Tuple { elems, .. } => elems.iter().for_each(|a| self.renamed(a, out)),
+            Pattern::Record { fields, .. } => {
+                for f in &**fields {
+                    if let PatternField::Value { name, value: Some(q) } = f {
+                        out.push(name.value.declared_name().to_string());
+                        self.renamed(q, out);
+                    }
+                }
+            }
+            Pattern::Ident(_) | Pattern::Literal(_) | Pattern::Error => {}
+        }
+    }
+
+    fn renamed_regions(&mut self, p: &SpannedPattern<'_, Symbol>, lo: u32, hi: u32, hole: Option<(u32, u32)>) {
+        let mut names = vec![];
+        self.renamed(p, &mut names);
+        let lo = self.ext_back(lo);
+        for n in names {
+            self.info.renamed_fields.push(Region {
+                name: n,
+                kind: "record-pattern-field",
+                lo,
+                hi,
+                hole,
+            });
+        }
+    }
+
     pub fn binders(&self, p: &SpannedPattern<'_, Symbol>, out: &mut Vec<String>, types: &mut Vec<String>) {
         match &p.value {
             Pattern::As(id, q) => {
@@ -286,6 +322,7 @@ impl<'s> Walker<'s> {
                     for b in bs.iter().chain(&ts) {
                         self.region(b, "match-alt", lo(alt.pattern.span), end, None);
                     }
+                    self.renamed_regions(&alt.pattern, lo(alt.pattern.span), end, None);
                     self.pattern(&alt.pattern, (lo(alt.pattern.span), hi(alt.expr.span)));
                     self.expr(&alt.expr);
                 }
@@ -365,6 +402,7 @@ impl<'s> Walker<'s> {
                     for n in names.iter().chain(&ts) {
                         self.region(n, "let", elo.min(own.0), end, if rec { None } else { Some(own) });
                     }
+                    self.renamed_regions(&b.name, elo.min(own.0), end, if rec { None } else { Some(own) });
                     let bend = self.ext(hi(b.expr.span));
                     for a in &*b.args {
                         self.info.idents.push((
@@ -407,6 +445,7 @@ impl<'s> Walker<'s> {
                     for n in names.iter().chain(&ts) {
                         self.region(n, "do", elo.min(lo(id.span)), end, None);
                     }
+                    self.renamed_regions(id, elo.min(lo(id.span)), end, None);
                     self.pattern(id, (lo(id.span), hi(d.bound.span)));
                 }
                 self.expr(d.bound);
@@ -429,6 +468,15 @@ impl<'s> Walker<'s> {
 impl Info {
     pub fn in_scope(&self, name: &str, pos: u32) -> bool {
         self.regions.iter().any(|r| {
+            r.name == name
+                && r.lo <= pos
+                && pos <= r.hi
+                && !r.hole.map_or(false, |(a, b)| a <= pos && pos <= b)
+        })
+    }
+    /// `name` is the field name of a renaming record-pattern field whose pattern scopes over `pos`
+    pub fn renamed_field_at(&self, name: &str, pos: u32) -> bool {
+        self.renamed_fields.iter().any(|r| {
             r.name == name
                 && r.lo <= pos
                 && pos <= r.hi
